@@ -388,10 +388,10 @@ impl Check for C09 {
     }
     fn units(&self, tier: Tier) -> Vec<Unit> {
         vec![
-            Unit::gen("gen", 16, tier.pick(5000, 120_000)),
+            Unit::gen("gen", 16, tier.pick(25_000, 200_000)),
             Unit::enumerate("tokens", 16),
             Unit::enumerate("handle_exhaustive", 16),
-            Unit::gen("handle_random", 8, tier.pick(15_000, 400_000)),
+            Unit::gen("handle_random", 8, tier.pick(60_000, 600_000)),
         ]
     }
     fn required_classes(&self, _tier: Tier) -> Vec<&'static str> {
